@@ -278,7 +278,7 @@ func (w *world) doStep() bool {
 			pending = append(pending, u)
 		}
 	}
-	kind := core.Pick(r, []string{"login-old", "login-new", "agree", "agree", "set-info", "set-info", "set-info", "set-user", "set-user", "disconnect", "vanish", "pm", "pm"})
+	kind := core.Pick(r, []string{"login-old", "login-new", "agree", "agree", "set-info", "set-info", "set-info", "set-user", "set-user", "disconnect", "vanish", "pm", "pm", "deleted-while-logging-in"})
 	if len(pending) > 0 && r.Chance(1, 2) {
 		kind = "agree"
 	}
@@ -401,6 +401,54 @@ func (w *world) doStep() bool {
 		u.bits = nb
 		w.late = true
 		w.log = append(w.log, fmt.Sprintf("admin sets privileges of client %d's account to %x (disconnect-users: %v, any-name: %v)", u.idx, nb, rc.BitSet(nb, 22), rc.BitSet(nb, 26)))
+	case "deleted-while-logging-in":
+		// two different operations on one account overlap: somebody logs in to it (authenticated, account looked up, not
+		// yet registered - a hook holds the login there) while the administrator deletes it. However the server resolves
+		// that, nobody may be left in the registry once the connection has ended (checked after every step).
+		if !w.users[0].connected || !w.users[0].completed {
+			return true
+		}
+		login := fmt.Sprintf("tmp%d", w.step)
+		if rep, ok := w.users[0].cl.Call(350, rc.F(105, rc.Obfuscate([]byte(login))), rc.FS(102, "Temp"), rc.F(106, rc.Obfuscate([]byte(""))), rc.F(110, fixture.GuestBits())); !ok || rep.Err != 0 {
+			w.c.Unsure("creating the temporary account failed: %v", rep)
+			return false
+		}
+		held, release := make(chan struct{}, 4), make(chan struct{})
+		w.srv.OnEvent = func(name string, cid [2]byte, x uint32) {
+			if name == "conn.registering" {
+				held <- struct{}{}
+				select {
+				case <-release:
+				case <-time.After(refclient.Watchdog):
+				}
+			}
+		}
+		g := refclient.Connect(w.srv, fmt.Sprintf("10.13.77.%d:9", 1+w.step%250))
+		if g.Handshake() != nil {
+			w.srv.OnEvent = nil
+			w.c.Unsure("handshake of the temporary user failed")
+			return false
+		}
+		g.Send(107, rc.F(105, rc.Obfuscate([]byte(login))), rc.F(106, rc.Obfuscate([]byte(""))), rc.F(160, rc.U16(190)))
+		select {
+		case <-held:
+		case <-time.After(refclient.Watchdog):
+			close(release)
+			w.srv.OnEvent = nil
+			w.c.Unsure("the temporary user's login was not observed at the hook")
+			return false
+		}
+		rep, ok := w.users[0].cl.CallDirect(351, rc.F(105, rc.Obfuscate([]byte(login))))
+		close(release)
+		select {
+		case <-g.Conn.Done:
+		case <-time.After(2 * time.Second):
+			g.Hangup() // the server let the session live on; that is not judged here, the registry is
+			<-g.Conn.Done
+		}
+		w.srv.OnEvent = nil
+		w.late = true
+		w.log = append(w.log, fmt.Sprintf("account %s deleted by the administrator (reply ok=%v err=%d) while a login to it was held before registration", login, ok, rep.Err))
 	case "disconnect":
 		var cands []*muser
 		for _, u := range live {
@@ -555,6 +603,14 @@ func (w *world) check() bool {
 	if !w.srv.Quiesce(refclient.Watchdog) {
 		w.c.Unsure("no quiescence after step %d", w.step)
 		return false
+	}
+	// an id must address a live user: no registry entry may outlive its connection handler (whose deferred last step
+	// is the removal, so an entry found after the handler has returned can never go away)
+	for _, cc := range w.srv.S.ClientMgr.List() {
+		if tc, ok := cc.Connection.(*transport.Conn); ok && tc.HandlerDone() {
+			w.c.Fail("C13/id-of-a-departed-user", "after step %d: id %d is still registered (and listed) although its connection has ended and its handler has returned\nhistory:\n%s", w.step, uint16(cc.ID[0])<<8|uint16(cc.ID[1]), strings.Join(w.log, "\n"))
+			return false
+		}
 	}
 	comp := w.completedIDs()
 	// ids pairwise distinct among live users
